@@ -38,6 +38,12 @@ func propC02(c *Ctx) {
 			runParseCase(c, strings.ReplaceAll(tpl, "%s", u), "foreign-symbol")
 		}
 	}
+	// numbers that end in an incomplete exponent: the characters after the mantissa are tokens of their own (2e+x is 2 e + x,
+	// no sentence), astral characters anywhere
+	for _, t := range []string{"2e+x", "7E+(3)", "1.5e+ 2", "2e-x", "3E-", "2e", "2e+", "1e+5x", "2e+5", "2e-5", "1.e+x", ".5e+x", "2e + x", "2 e+x", "2e+-3", "2e++3", "x + 2e+",
+		"1 + 😀 2", "😀", "1 😀", "a + \U00010000", "\uffff 1", "1 \uffff + 2", "f(😀)", "'😀' + 😀"} {
+		runParseCase(c, t, "incomplete-exponent / astral")
+	}
 	propScaleExpressions(c, "C02")
 	// (2) generated sentences + (3) token-level mutants of any size
 	g := newExGen(c)
